@@ -27,6 +27,7 @@ class FamilyResult:
         self.dumps = {}
         self.ws = None
         self.batches = []
+        self.event_coverage = {}
 
 
 def split_batches(programs, nb):
@@ -145,6 +146,20 @@ def replay_family(tag, programs, ctors=(0,), clone_points=False, workers=8, opt_
                         % (tag, tlc.error))
     replays = tlc.tagged.get("REPLAY", [])
     fr.behaviours = len(replays)
+    cov = {"A": 0, "T": 0, "I": 0, "C": 0, "N": 0, "rewinds_or_short": 0, "after_error": 0,
+           "eoi_tokens": 0, "switches": 0}
+    for rp in replays:
+        seen_err = False
+        for e in rp["ev"]:
+            k = e["k"]
+            if k in cov:
+                cov[k] += 1
+            if k in "AT" and seen_err:
+                cov["after_error"] += 1
+                seen_err = False
+            if k == "I":
+                seen_err = True
+    fr.event_coverage = cov
     if ws is None:
         return fr
     failed_ids = {f["program"] for f in failures}
